@@ -760,6 +760,8 @@ class MindsDBParser(Parser):
         nullable = True
         if hasattr(p, 'NOT'):
             nullable = False
+        if not isinstance(p.table_column, TableColumn):
+            raise ParsingException('NULL / NOT NULL is not applicable to PRIMARY KEY (...)')
         p.table_column.nullable = nullable
         return p.table_column
 
